@@ -278,7 +278,7 @@ def run_property(prop: str, harness_name: str, tier: str, seed: int, jobs: int, 
     running: Dict[int, Tuple[int, float]] = {}  # pid -> (idx, start)
     budget = getattr(mod, "WALL_BUDGET", {}).get(tier, 3600.0)
     if tier == "thorough":
-        budget = min(budget, 2100.0)     # every thorough command ends within ~35 minutes; what did not run is INCONCLUSIVE
+        budget = min(budget, 1500.0)     # every thorough command ends within ~25 minutes; what did not run is INCONCLUSIVE
     if os.environ.get("VF_WALL_BUDGET"):
         budget = float(os.environ["VF_WALL_BUDGET"])
     while len(done) < len(items):
